@@ -43,6 +43,9 @@ You have to disable enum or useUnderlyingTypeMethods to resolve the setting conf
 
 	if targetUnderlying {
 		innerTarget = xtype.TypeOf(target.NamedType.Underlying())
+		// a failing extend function must not return its underlying typed
+		// result as the named target value
+		ctx.SetErrorTargetVar(xtype.ZeroValue(target.T))
 	}
 
 	stmt, id, err := gen.Build(ctx, sourceID, innerSource, innerTarget, errPath)
